@@ -1,6 +1,6 @@
 (* C14 — Keyshare protocol: server bound to commitment, both sides agree on the commitments. *)
 From Coq Require Import ZArith List.
-From Gabi Require Import ModArith GoSem ParamsDef Keys HashTool Core CL Prover Keyshare DiscloseComplete KeyshareComplete.
+From Gabi Require Import ModArith GoSem ParamsDef Keys HashTool Core CL Prover Keyshare DiscloseComplete KeyshareComplete IssueComplete KeyshareIssue.
 Import ListNotations.
 Open Scope Z_scope.
 
@@ -62,3 +62,20 @@ Theorem keyshare_signature_is_joint :
   cl_verify pk is_prime (mkSig A E V (Some (powx (pk_N pk) r0 skS))) (skU :: rest) =
   cl_verify pk is_prime (mkSig A E V None) ((skU + skS) :: rest).
 Proof. exact keyshare_signature_is_joint_lem. Qed.
+
+(* The same for issuance: the builder made with the server's P = R_0^skS, its commitment started from the server's
+   R_0^rS, and its ProofU merged (MergeProofP) with the server's response rS + c * skS + (rU + c * skU) are the
+   commitment and proof of a single holder of skU + skS; the issuer reconstructs the hashed commitment. *)
+Theorem keyshare_joint_issuance_complete :
+  forall pk, 1 < pk_N pk ->
+  forall skU skS rU rS vPrime vPrimeCommit mUser mc c r0 bU l pJ,
+  unitb pk (pk_S pk) -> in_R pk 0 -> unitb pk (R_at pk 0) ->
+  (forall kv, In kv mUser -> in_R pk (fst kv) /\ unitb pk (R_at pk (fst kv))) ->
+  0 <= c -> 0 <= skU -> 0 <= skS -> 0 <= rU -> 0 <= rS ->
+  index_R (pk_R pk) 0 = Ok r0 ->
+  new_credential_builder pk skU (Some (powx (pk_N pk) r0 skS)) vPrime vPrimeCommit mUser (mck mc mUser) = Ok bU ->
+  (forall kv, In kv mUser -> lookup (mck mc mUser) (fst kv) = Some (mc (fst kv))) ->
+  cb_commit pk bU rU (Some (powx (pk_N pk) r0 rS)) = Ok l ->
+  merge_proofP_U pk (cb_create_proof bU rU c) None c (rS + c * skS + (rU + c * skU)) = Ok pJ ->
+  exists uc, l = [cb_u bU; uc] /\ reconstruct_ucommit pk pJ = Ok uc.
+Proof. exact keyshare_joint_issuance_complete_lem. Qed.
